@@ -293,7 +293,12 @@ type inlineState struct {
 
 func (state *inlineState) spanEnd() int {
 	if state.unparsedPos >= len(state.unparsed) {
-		return len(state.source)
+		// Past the last node: the container's text ends where its last node ends.
+		// (The source also holds whatever follows the container in the root block.)
+		if len(state.unparsed) == 0 {
+			return state.root.Span().End
+		}
+		return state.unparsed[len(state.unparsed)-1].Span().End
 	}
 	return state.unparsed[state.unparsedPos].Span().End
 }
